@@ -64,7 +64,7 @@ Inductive case :=
    CFList.MarshalBinary on it, and the decoded value of the same bytes with bytes 12..14 zeroed *)
 | CCFDec (bs : list N) (o_dec : outcome cflist) (o_re : outcome (list N)) (o_dec0 : outcome cflist).
 
-Definition default_st := mkSt false 0 0 [] [] [].
+Definition default_st := mkSt false 0 0 [] [] [] [].
 Definition cfg_st (cfg : nat) : st :=
   match nth_error configs cfg with Some (_, _, _, s) => s | None => default_st end.
 
@@ -120,20 +120,31 @@ Definition probe_prop (s0 : st) (t : list channel) (dn : list channel) (p : prob
     end
   end.
 
+(* what AddChannel must accept, written from the statement: the band takes extra channels;
+   min <= max and every data-rate of the range is an uplink data-rate of the band; the
+   frequency is a multiple of 100 Hz that fits the 24-bit x 100 Hz field, or from 2.4 GHz
+   on a multiple of 200 Hz that fits 24 bits x 200 Hz *)
+Definition spec_accepts (ext : bool) (drs : list Z) (f mn mx : Z) : bool :=
+  ext
+  && (if (mn <=? mx) && zin mn drs && zin mx drs
+      then forallb (fun d => zin d drs) (map (Z.add mn) (zrange (mx - mn + 1))) else false)
+  && (if f <? 2400000000 then (f mod 100 =? 0) && (f / 100 <? 16777216)
+      else (f mod 200 =? 0) && (f / 200 <? 16777216)).
+
 (* outcome each call must have, given the number of channels at that moment *)
-Fixpoint steps_prop (ext : bool) (n : Z) (steps : list (op * outcome unit)) : bool :=
+Fixpoint steps_prop (ext : bool) (drs : list Z) (n : Z) (steps : list (op * outcome unit)) : bool :=
   match steps with
   | [] => true
-  | (AddChannel _ _ _, o) :: r =>
-    if ext then is_ok o && steps_prop ext (n + 1) r else is_err o && steps_prop ext n r
+  | (AddChannel f mn mx, o) :: r =>
+    if spec_accepts ext drs f mn mx then is_ok o && steps_prop ext drs (n + 1) r else is_err o && steps_prop ext drs n r
   | (Disable i, o) :: r | (Enable i, o) :: r =>
-    (if (0 <=? i) && (i <? n) then is_ok o else is_err o) && steps_prop ext n r
+    (if (0 <=? i) && (i <? n) then is_ok o else is_err o) && steps_prop ext drs n r
   end.
 
 (* channels appended by the successful AddChannel calls, as they were added *)
-Definition added (ext : bool) (steps : list (op * outcome unit)) : list channel :=
+Definition added (ext : bool) (drs : list Z) (steps : list (op * outcome unit)) : list channel :=
   flat_map (fun so => match so with
-                      | (AddChannel f mn mx, _) => if ext then [mkChannel f mn mx (negb (f =? 0)) true] else []
+                      | (AddChannel f mn mx, _) => if spec_accepts ext drs f mn mx then [mkChannel f mn mx (negb (f =? 0)) true] else []
                       | _ => []
                       end) steps.
 
@@ -162,7 +173,8 @@ Definition freq_kind_premise (lo hi : Z) (k : N) (ins : list Z) : bool :=
   match k, ins with
   | 0%N, [f; d] => user_freq_ok lo hi f && dr_ok d
   | 1%N, [ch; f; mx; mn] => newchannel_user_freq_ok f && dr_ok mx && dr_ok mn
-  | 2%N, [ch; f] => user_freq_ok lo hi f
+  (* every channel AddChannel accepted must be conveyable to the device *)
+  | 2%N, [ch; f] => user_freq_ok lo hi f || valid_channel_freq f
   | 3%N, [f] => user_freq_ok lo hi f
   | 4%N, [f; d] => user_freq_ok lo hi f && dr_ok d
   | _, _ => false
@@ -190,7 +202,7 @@ Definition snap_prop (s0 : st) (steps : list (op * outcome unit)) (ob : obs) (pr
   let t := ok_channels (o_up ob) in
   let n0 := zlen (up s0) in
   (* calls report errors exactly for unsupported additions and invalid indices; never panic *)
-  steps_prop (extra s0) n0 steps
+  steps_prop (extra s0) (updr s0) n0 steps
   (* index sets *)
   && zlist_eqb (o_all ob) (zrange n)
   && partition_of n (o_en ob) (o_dis ob)
@@ -201,8 +213,10 @@ Definition snap_prop (s0 : st) (steps : list (op * outcome unit)) (ob : obs) (pr
              (combine (zrange n) t)
   (* the band's own channels are never altered; additions are appended as custom *)
   && extends (up s0) t
-  && list_eqb same_identity t (up s0 ++ added (extra s0) steps)
-  && list_eqb channel_eqb (o_down ob) (down s0 ++ added (extra s0) steps)
+  && list_eqb same_identity t (up s0 ++ added (extra s0) (updr s0) steps)
+  && list_eqb channel_eqb (o_down ob) (down s0 ++ added (extra s0) (updr s0) steps)
+  (* every channel the band reports has a data-rate range made of uplink data-rates of the band *)
+  && forallb (fun c => (minDR c <=? maxDR c) && zin (minDR c) (updr s0) && zin (maxDR c) (updr s0)) t
   (* CFList content *)
   && list_eqb ocf_eqb (o_cf ob) (map (spec_cflist (extra s0) (cfmin s0) (cfmax s0) t) pversions)
   (* lookups and invalid indices *)
@@ -228,7 +242,7 @@ Definition idx_model (s : st) (k : N) : list Z :=
 (* number of channels the band must have after the calls made so far: the
    initial ones plus one per accepted AddChannel *)
 Definition expected_n (s0 : st) (steps : list (op * outcome unit)) : Z :=
-  zlen (up s0) + zlen (added (extra s0) steps).
+  zlen (up s0) + zlen (added (extra s0) (updr s0) steps).
 
 Definition index_in (n : Z) (i : Z) : bool := (0 <=? i) && (i <? n).
 Definition answer_inside {A} (n i : Z) (o : outcome A) : bool :=
@@ -269,7 +283,7 @@ Definition target_obs (n : Z) (en cus dev : list Z) : list Z :=
    returns (model_ok, prop_ok) *)
 Fixpoint trace_go (us : bool) (s0 s : st) (steps : list (op * outcome unit)) (evs : list ev) : bool * bool :=
   match evs with
-  | [] => (true, steps_prop (extra s0) (zlen (up s0)) (rev steps))
+  | [] => (true, steps_prop (extra s0) (updr s0) (zlen (up s0)) (rev steps))
   | e :: rest =>
     let n := expected_n s0 steps in
     let '(s', steps', m, p) :=
@@ -328,7 +342,7 @@ Definition check (c : case) : N :=
          (negb (is_panic o_enc) && negb (is_panic o_dec)
           && match cf with
              | CFChannels fs =>
-               (if forallb (fun f => (f =? 0) || user_freq_ok lo hi f) fs then outcome_eqb cflist_eqb o_dec (Ok cf) else true)
+               (if forallb (fun f => (f =? 0) || user_freq_ok lo hi f || valid_channel_freq f) fs then outcome_eqb cflist_eqb o_dec (Ok cf) else true)
                && match o_enc with Ok _ => outcome_eqb cflist_eqb o_dec (Ok cf) | _ => true end
              | CFMasks ms => outcome_eqb cflist_eqb o_dec (Ok cf)
              end)
